@@ -32,8 +32,8 @@ var c07Modes = []string{"scripts-only", "tx", "tx+scripts", "tx-nil-prevout", "n
 	"tx-nil-unlocking", "tx-no-inputs", "prevout-nil-script", "nil-scripts"}
 
 func c07Options(in *c07Input) []interpreter.ExecutionOptionFunc {
-	unlock := bscript.NewFromBytes(append([]byte{}, in.Unlock...))
-	lock := bscript.NewFromBytes(append([]byte{}, in.Lock...))
+	unlock := bscript.NewFromBytes(mon.Exact(in.Unlock))
+	lock := bscript.NewFromBytes(mon.Exact(in.Lock))
 	// transaction shape derived from the context: 1-3 inputs, 0-2 outputs, the
 	// checked input at any position (so that "index == number of outputs" occurs)
 	nOuts := int(in.Ctx.Sats % 3)
